@@ -333,7 +333,7 @@ pub fn plan(ctx: &Ctx) -> Plan {
         props: vec![
             (Box::new(ModelBased), t.pick(150_000, 4_000_000)),
             (Box::new(RealThreads), t.pick(1_200, 40_000)),
-            (Box::new(crate::fuzzdrv::target("tt_ops")), t.pick(0, 400_000)),
+            (Box::new(crate::fuzzdrv::target("tt_ops")), t.pick(0, 150_000)),
         ],
         rule: "model-based: geometry (tables, buckets) in {1,2,3,8,128} x {1,2,7,64,1024}; op lists (0-400) of insert / \
                find / entries, tagged with an actor, over key universes built to collide (few keys; equal modulo tables; \
